@@ -30,6 +30,21 @@ def _explain(orig, src, conv, route, look, nb, exc=None):
             ppc = to_ppc(copy.deepcopy(src), **kw)
             if route.startswith("mpc") and exc == "IndexError" and (ppc["branch"].shape[0] <= 1 or ppc["bus"].shape[0] <= 1):
                 toks.append("explained=mat_single_row_squeezed")
+            if exc == "ValueError" and "gencost" in ppc:
+                # C21-pwl-gencost-padded: to_ppc pads piecewise linear cost rows of different length with zeros (MATPOWER
+                # convention), from_ppc demands 2*NCOST == number of value columns for every pwl row
+                gc = ppc["gencost"]
+                pw = gc[gc[:, 0] == 1]
+                if len(pw) and not np.allclose(2 * pw[:, 3], gc.shape[1] - 4):
+                    toks.append("explained=pwl_gencost_rows_of_different_length")
+            if exc == "UnboundLocalError":
+                # C21-impedance-rate-zero: from_ppc's impedance path writes the RATE_A == 0 fallback into the transformer variable
+                # `sn`, which only exists when the case also has a transformer-type branch
+                from pandapower.converter.pypower.from_ppc import _branch_to_which
+                from pandapower.pypower.idx_brch import RATE_A
+                is_line, is_trafo, is_imp, _ = _branch_to_which(ppc)
+                if not is_trafo.any() and (is_imp & np.isclose(ppc["branch"][:, RATE_A].real, 0)).any():
+                    toks.append("explained=impedance_rate_zero_no_trafo")
             return toks
         if route.startswith("ppc"):
             # C21-line-g-halved: from_ppc writes g_us_per_km = BR_G / Zn * 1e6 / 2 although BR_G is the total conductance
